@@ -85,6 +85,7 @@ func globalHistory(c *Ctx, r *Report, ri *reachInfo, rule string) (nvars int) {
 
 func runC08(c *Ctx, r *Report) {
 	closureState(c, r, "C08-R5-closure-state")
+	encodeLeavesMessages(c, r, "C08-R6-encode-leaves-file")
 	roots, missing := c.rootFuncs(append(append([]string{}, decodeRoots...), encodeRoots...))
 	for _, m := range missing {
 		r.fail("C08-roots", m, "", "entry point not found")
